@@ -491,6 +491,12 @@ func (c *Conn) loadSession(hello *clientHelloMsg) (
 			return nil, nil, nil, nil
 		}
 
+		// [uTLS] A uTLS hello may lack extended_master_secret. A session that used it must
+		// not be offered then: the server has to abort such a resumption (RFC 7627, 5.3).
+		if session.extMasterSecret && !hello.extendedMasterSecret {
+			return nil, nil, nil, nil
+		}
+
 		hello.sessionTicket = session.ticket
 		return
 	}
